@@ -13,7 +13,7 @@ import (
 func init() {
 	Register(&Spec{
 		ID:          "C16",
-		Explanation: "Decides structural necessary conditions of deep copy on assignment: (R1) writePtr copies a struct into the destination message exactly when forceCopy is set, the source lives in another message, or the source is a list member (the three disjuncts lead to the allocation; the no-copy edge is the failure of all three), copies a list when forceCopy is set or the source lives in another message, and copyStruct always recurses with forceCopy = true; (R2) a capability pointer copied across messages is re-homed as NewInterface(dst, dst.msg.AddCap(client.AddRef())) only under 'different message'; (R3) copyStruct copies min(len) of the data sections and zeroes the rest of the destination, copies the common pointers, nulls the destination's extra pointers and ignores the source's extra ones; (R4) a copied list gets a fresh allocation of allocSize(), a copied composite tag word, element-wise copyStruct when elements hold pointers and a bulk copy otherwise, all with maxDepth on the fresh object. Does NOT decide value equality of the copy or independence under later mutation.",
+		Explanation: "Decides structural necessary conditions of deep copy on assignment: (R1) writePtr copies a struct into the destination message exactly when forceCopy is set, the source lives in another message, or the source is a list member (the three disjuncts lead to the allocation; the no-copy edge is the failure of all three), copies a list when forceCopy is set or the source lives in another message, and copyStruct always recurses with forceCopy = true; (R2) a capability pointer copied across messages is re-homed as NewInterface(dst, dst.msg.AddCap(client.AddRef())) only under 'different message'; (R3) copyStruct copies min(len) of the data sections and zeroes the rest of the destination, copies the common pointers, nulls the destination's extra pointers and ignores the source's extra ones; (R4) a copied list gets a fresh allocation of allocSize(), a copied composite tag word, element-wise copyStruct when elements hold pointers and a bulk copy otherwise, all with maxDepth on the fresh object. (R3n) the pointer copy in copyStruct is not skipped for a null source pointer; (R3w) the size of a struct copy passes through padToWord (the struct view of a primitive-list element has a data section shorter than a word). Does NOT decide value equality of the copy or independence under later mutation.",
 		Run:         runC16,
 	})
 }
@@ -23,8 +23,8 @@ var copySpecs = []anchorSpec{
 	{"capnp.copyStruct", "capnp.(*Segment).readPtr", 1, []string{"p1.seg", "element(addSize(p1.off, p1.size.DataSize)#0, int32(phi), 8:Size)#0", "p1.depthLimit"}, []string{"phi < p0.size.PointerCount", "phi < p1.size.PointerCount"}, "reads pointer j of the source only while j is below both pointer counts"},
 	{"capnp.copyStruct", "capnp.(*Segment).writePtr", 1, []string{"p0.seg", "element(addSize(p0.off, p0.size.DataSize)#0, int32(phi), 8:Size)#0", "readPtr(p1.seg, element(addSize(p1.off, p1.size.DataSize)#0, int32(phi), 8:Size)#0, p1.depthLimit)#0", "true:bool"}, []string{"nil == readPtr(p1.seg, element(addSize(p1.off, p1.size.DataSize)#0, int32(phi), 8:Size)#0, p1.depthLimit)#1"}, "writes the same slot j of the destination with forceCopy = true"},
 	{"capnp.copyStruct", "capnp.(*Segment).writeRawPointer", 1, []string{"p0.seg", "element(addSize(p0.off, p0.size.DataSize)#0, int32(phi), 8:Size)#0", "0:rawPointer"}, []string{"phi < p0.size.PointerCount"}, "nulls the destination's pointers beyond the source's count"},
-	{"capnp.(*Segment).writePtr", "capnp.alloc", 1, []string{"p0", "totalSize(st.size)"}, []string{"!isZero(st.size)"}, "struct copy allocates the source's size in the destination"},
-	{"capnp.(*Segment).writePtr", "capnp.copyStruct", 1, []string{"dst", "st"}, []string{"alloc(p0, totalSize(st.size))#2 == nil"}, "struct copy goes through copyStruct"},
+	{"capnp.(*Segment).writePtr", "capnp.alloc", 1, []string{"p0", "totalSize(dstSize)"}, []string{"!isZero(st.size)"}, "struct copy allocates the source's size (data section rounded up to whole words) in the destination"},
+	{"capnp.(*Segment).writePtr", "capnp.copyStruct", 1, []string{"dst", "st"}, []string{"alloc(p0, totalSize(dstSize))#2 == nil"}, "struct copy goes through copyStruct"},
 	{"capnp.(*Segment).writePtr", "capnp.alloc", 2, []string{"p0", "allocSize(l)"}, []string{"1:int == ptrType(p2.flags)"}, "list copy allocates allocSize() (tag word included)"},
 	{"capnp.(*Segment).writePtr", "capnp.(*Segment).writeRawPointer", 3, []string{"alloc(p0, allocSize(l))#0", "alloc(p0, allocSize(l))#1", "readRawPointer(l.seg, (l.off - 8:address))"}, []string{"(1:listFlags & dst.flags) != 0:listFlags"}, "composite list copy starts with the source's tag word"},
 	{"capnp.(*Segment).writePtr", "capnp.copyStruct", 2, []string{"Struct(dst, phi)", "Struct(l, phi)"}, []string{"(2:listFlags & dst.flags) == 0:listFlags", "0:uint16 != dst.size.PointerCount", "phi < Len(l)"}, "elements that hold pointers are copied one by one"},
@@ -34,6 +34,8 @@ var copySpecs = []anchorSpec{
 }
 
 func runC16(ctx *Ctx) {
+	ruleCopySizeWordAligned(ctx, "C16-R3w")
+	ruleCopyNullPointersToo(ctx, "C16-R3n")
 	ruleCopyDecision(ctx, "C16-R1")
 	ruleAnchorSpecs(ctx, "C16-R3", copySpecs)
 	ruleCopyZeroFill(ctx, "C16-R3z")
@@ -55,10 +57,31 @@ func ruleCopyDecision(ctx *Ctx, rule string) {
 		1: {"(1:structFlags & st.flags) != 0:structFlags", "p0.msg != p2.seg.msg", "p3"},
 		2: {"p0.msg != p2.seg.msg", "p3"},
 	}
+	seenCopy := map[int]bool{}
+	defer func() {
+		for ord, kind := range map[int]string{1: "struct", 2: "list"} {
+			if !seenCopy[ord] {
+				r.Violation(rule, fmt.Sprintf("writePtr | %s is copied iff forceCopy, other message%s", kind, map[int]string{1: " or list member", 2: ""}[ord]), q.Pos(f.Pos()), "writePtr has no allocation of the "+kind+"'s size in the destination: the copy decision cannot be located")
+			}
+		}
+	}()
 	for _, a := range ssaq.Anchors(f) {
-		if a.Callee != "capnp.alloc" || a.Ordinal > 2 {
+		// the two copying allocations are told from the landing-pad ones by
+		// what they allocate (a struct's or a list's size, not a constant)
+		if a.Callee != "capnp.alloc" || len(a.Args) < 2 || a.Instr.Parent() != f {
 			continue
 		}
+		ord := 0
+		switch {
+		case strings.Contains(a.Args[1], "allocSize("):
+			ord = 2
+		case strings.Contains(a.Args[1], "totalSize("):
+			ord = 1
+		default:
+			continue
+		}
+		seenCopy[ord] = true
+		a.Ordinal = ord
 		kind := map[int]string{1: "struct", 2: "list"}[a.Ordinal]
 		key := fmt.Sprintf("writePtr | %s is copied iff forceCopy, other message%s", kind, map[int]string{1: " or list member", 2: ""}[a.Ordinal])
 		// walk back from the allocation's block to the decision: the nearest ancestor block with several predecessors ending in Ifs
@@ -77,11 +100,34 @@ func ruleCopyDecision(ctx *Ctx, rule string) {
 		}
 		got := condsInto(f, b)
 		// the disjunction is compiled as a chain: collect the chain of true-edges into b
-		sort.Strings(got)
 		w := append([]string{}, want[a.Ordinal]...)
+		// disjuncts written with the source names of locals (st.flags) are
+		// compared in the name-free rendering when the reference tree defines
+		// those locals
+		allFull := true
+		for i := range w {
+			wx, full := expandWant("capnp.(*Segment).writePtr", w[i])
+			allFull = allFull && full
+			if full {
+				w[i] = wx
+			}
+		}
+		named := append([]string{}, want[a.Ordinal]...)
+		sort.Strings(named)
+		gotNamed := append([]string{}, got...)
+		sort.Strings(gotNamed)
+		// a local that is only an identity on the reference tree (st is
+		// "Struct#1"): the named comparison counts as well
+		namedOK := weakWant(w) && strings.Join(gotNamed, " || ") == strings.Join(named, " || ")
+		if allFull {
+			got = condsIntoR(f, b)
+		} else {
+			w = named
+		}
+		sort.Strings(got)
 		sort.Strings(w)
 		pos := q.Pos(ssaq.InstrPos(a.Instr))
-		if strings.Join(got, " || ") == strings.Join(w, " || ") {
+		if namedOK || strings.Join(got, " || ") == strings.Join(w, " || ") {
 			r.Ok(rule, key, pos, "the copy is entered under: "+strings.Join(got, " || "))
 		} else {
 			r.Violation(rule, key, pos, fmt.Sprintf("the copy into the destination message is entered under [%s]; it must be entered under exactly [%s]: otherwise a pointer into another message or into a list element is stored without copying, or objects are copied needlessly", strings.Join(got, " || "), strings.Join(w, " || ")))
@@ -104,6 +150,21 @@ func condsInto(f *ssa.Function, b *ssa.BasicBlock) []string {
 	return out
 }
 
+// condsIntoR is condsInto with locals rendered by their definitions.
+func condsIntoR(f *ssa.Function, b *ssa.BasicBlock) []string {
+	var out []string
+	for _, p := range b.Preds {
+		if ifi, ok := p.Instrs[len(p.Instrs)-1].(*ssa.If); ok {
+			for k, s := range p.Succs {
+				if s == b {
+					out = append(out, ssaq.RenderCondR(f, ifi.Cond, k == 0))
+				}
+			}
+		}
+	}
+	return out
+}
+
 // ruleCopyZeroFill: the rest of the destination's data section is zeroed.
 func ruleCopyZeroFill(ctx *Ctx, rule string) {
 	q := ssaq.For(ctx.Prog)
@@ -114,20 +175,24 @@ func ruleCopyZeroFill(ctx *Ctx, rule string) {
 		return
 	}
 	ok := false
-	for _, b := range f.Blocks {
-		for _, in := range b.Instrs {
-			st, isStore := in.(*ssa.Store)
-			if !isStore {
-				continue
-			}
-			ia, isIA := st.Addr.(*ssa.IndexAddr)
-			if !isIA {
-				continue
-			}
-			if k, isC := ssaq.ConstInt(st.Val); isC && k == 0 {
-				s := ssaq.RenderValue(f, ia.X)
-				if strings.HasPrefix(s, "slice(p0.seg, p0.off, p0.size.DataSize)[copy(") {
-					ok = true
+	// copyStruct itself and the helpers that did not exist on the reference
+	// tree it calls, seen in copyStruct's frame
+	for _, fr := range ssaq.Frames(f) {
+		for _, b := range fr.Fn.Blocks {
+			for _, in := range b.Instrs {
+				st, isStore := in.(*ssa.Store)
+				if !isStore {
+					continue
+				}
+				ia, isIA := st.Addr.(*ssa.IndexAddr)
+				if !isIA {
+					continue
+				}
+				if k, isC := ssaq.ConstInt(st.Val); isC && k == 0 {
+					s := fr.Render(ia.X)
+					if strings.HasPrefix(s, "slice(p0.seg, p0.off, p0.size.DataSize)[copy(") {
+						ok = true
+					}
 				}
 			}
 		}
